@@ -102,6 +102,7 @@ inline std::string gen_scenario(const unsigned char *data, size_t size, const st
   if (pf.faults) { unsigned nf = c.pick(3); for (unsigned i = 0; i < nf; i++) { static const char *calls[] = {"asendto", "arecvfrom", "aconnect", "asocket", "agetsockname", "asetsockopt"}; static const char *errs[] = {"ECONNREFUSED", "ECONNRESET", "ENETUNREACH", "EMFILE", "EWOULDBLOCK", "EINTR", "EACCES"}; o += std::string("fail ") + calls[c.pick(6)] + " " + std::to_string(1 + c.pick(6)) + " " + errs[c.pick(7)] + "\n"; } }
   if (pf.chop || c.chance(1, 8)) { if (c.chance(2, 3)) { o += "chop "; unsigned n = 1 + c.pick(4); for (unsigned i = 0; i < n; i++) o += (i ? "," : "") + std::to_string(1 + c.pick(c.chance(1, 2) ? 3 : 40)); o += "\n"; } if (c.chance(1, 2)) { o += "partial "; unsigned n = 1 + c.pick(4); for (unsigned i = 0; i < n; i++) o += (i ? "," : "") + std::to_string(c.pick(c.chance(1, 2) ? 4 : 50)); o += ",64\n"; } }
   if (pf.search && c.chance(1, 3)) o += "alias r" + std::to_string(1 + c.pick(3)) + " target" + std::to_string(c.pick(3)) + ".alias.test\n";
+  if (pf.prop == "C13" && c.chance(1, 4)) { static const char *ll[] = {"127.0.0.1 localhost", "::1 localhost", "127.0.0.1 localhost\nhosts ::1 localhost", "127.0.0.2 localhost", "127.0.0.1 localhost x.localhost"}; o += std::string("hosts ") + ll[c.pick(5)] + "\n"; }
   if (pf.addr && c.chance(1, 2)) { unsigned n = 1 + c.pick(3); for (unsigned i = 0; i < n; i++) o += std::string("hosts ") + (c.chance(1, 3) ? "2001:db8::" + std::to_string(i + 1) : "192.0.2." + std::to_string(i + 1)) + " r" + std::to_string(1 + c.pick(3)) + ".test" + (c.chance(1, 4) ? " r" + std::to_string(1 + c.pick(3)) + ".alt.test" : "") + "\n"; }
   // ---- body
   unsigned nreq = 1 + c.pick((unsigned)pf.max_reqs); int id = 0; unsigned body = nreq + c.pick(10);
@@ -157,15 +158,16 @@ inline std::string gen_scenario(const unsigned char *data, size_t size, const st
       std::string kind = pf.all_kinds ? kinds_all[c.pick(10)] : kinds_simple[c.pick(4)];
       if (prop == "C08") { static const char *ks[] = {"query", "send", "lquery", "getaddrinfo", "gethostbyname", "query", "lsend", "query"}; kind = ks[c.pick(8)]; }
       if (prop == "C12") { static const char *ks[] = {"search", "lsearch", "getaddrinfo", "gethostbyname", "search"}; kind = ks[c.pick(5)]; }
-      if (prop == "C13") { static const char *ks[] = {"getaddrinfo", "gethostbyname", "gethostbyaddr", "getnameinfo", "getaddrinfo"}; kind = ks[c.pick(5)]; }
+      if (prop == "C13") { static const char *ks[] = {"getaddrinfo", "gethostbyname", "gethostbyaddr", "getnameinfo", "getaddrinfo", "hostsfile"}; kind = ks[c.pick(6)]; }
       std::string name = gen_req_name(c, (prop == "C08" && id > 1) ? 1 + (int)c.pick(2) : id, pf);
       if (prop == "C13" && (kind == "getaddrinfo" || kind == "gethostbyname") && c.chance(1, 5)) name = "r" + std::to_string(id);   // single label: walks the search list
       if (prop == "C13" && (kind == "getaddrinfo" || kind == "gethostbyname") && c.chance(1, 10)) name = c.chance(1, 2) ? "192.0.2." + std::to_string(50 + c.pick(100)) : "2001:db8::" + std::to_string(1 + c.pick(200));   // numeric host names
+      if (prop == "C13" && (kind == "hostsfile" || ((kind == "getaddrinfo" || kind == "gethostbyname") && c.chance(1, 12)))) { static const char *hn[] = {"localhost", "localhost", "x.localhost", "LocalHost"}; unsigned hk = c.pick(8); name = hk < 4 ? std::string(hn[hk]) : "r" + std::to_string(id) + (hk == 7 ? ".alt.test" : ".test"); }   // (names keep the r<id> label: transmissions are attributed to requests by it)   // names the hosts file may list, and the loopback rule
       if (prop == "C08") { static const char *forms[] = {"r%d.test", "r%d.test", "R%d.TEST", "r%d.test.", "r%d.Test"}; char nb[64]; snprintf(nb, sizeof nb, forms[c.pick(5)], 1 + (int)c.pick(2)); name = nb; }
       bool inject_now = pf.inject && c.chance(2, 3);
       if (inject_now) o += "rule * r" + std::to_string(id) + " 0 " + (c.chance(1, 2) ? "silence" : "delay") + "\n";   // keep the request live so that the forged packet is what arrives first
       o += "req " + std::to_string(id) + " " + kind + " " + name;
-      if (kind == "getaddrinfo" || kind == "gethostbyname" || kind == "gethostbyaddr" || kind == "getnameinfo") { static const char *fam[] = {"INET", "INET6", "UNSPEC", "INET"}; unsigned fi = c.pick(4); if (kind != "getaddrinfo" && kind != "gethostbyname" && fi == 2) fi = 0; o += std::string(" ") + fam[fi]; if (kind == "getaddrinfo") { unsigned fl = 0; if (c.chance(1, 3)) fl |= ARES_AI_CANONNAME; if (c.chance(1, 3)) fl |= ARES_AI_NOSORT; if (c.chance(1, 6)) fl |= ARES_AI_ENVHOSTS; if (fl) o += " flags=" + std::to_string(fl); if (c.chance(1, 3)) o += " port=" + std::to_string(1 + c.pick(65535)); } }
+      if (kind == "getaddrinfo" || kind == "gethostbyname" || kind == "gethostbyaddr" || kind == "getnameinfo" || kind == "hostsfile") { static const char *fam[] = {"INET", "INET6", "UNSPEC", "INET"}; unsigned fi = c.pick(4); if (kind != "getaddrinfo" && kind != "gethostbyname" && fi == 2) fi = 0; o += std::string(" ") + fam[fi]; if (kind == "getaddrinfo") { unsigned fl = 0; if (c.chance(1, 3)) fl |= ARES_AI_CANONNAME; if (c.chance(1, 3)) fl |= ARES_AI_NOSORT; if (c.chance(1, 6)) fl |= ARES_AI_ENVHOSTS; if (fl) o += " flags=" + std::to_string(fl); if (c.chance(1, 3)) o += " port=" + std::to_string(1 + c.pick(65535)); } }
       else if (prop == "C08") { static const char *qt[] = {"A", "A", "AAAA", "TXT", "A", "99", "100", "A", "A", "A"}; o += std::string(" ") + qt[c.pick(10)]; }
       else { static const char *qt[] = {"A", "A", "AAAA", "TXT", "A"}; o += std::string(" ") + qt[c.pick(5)]; }
       if (prop == "C08" && c.chance(1, 4)) o += std::string(" cb=") + (c.chance(1, 2) ? "again" : "slowagain");
